@@ -261,7 +261,7 @@ func c18Post(c *Ctx, m *Part) {
 func init() {
 	register(&PropDef{
 		ID: "C18", Level: "model_checking",
-		Rule: "all 8192 presence/absence combinations of {file argument, piped stdin, --outputFile, --encrypt, --redactFieldsRegexp, --redactFieldNames, --atlasProjectId, --atlasClusterName, --atlasPublicKey, --atlasPrivateKey, --atlasLogStartDate, --atlasLogEndDate, key pair in the environment}, each with and (when -o is given) without a pre-existing output file holding sentinel bytes, run through the real main() with cobra/pflag wiring (harness binary in child-cli mode: only http.DefaultTransport is replaced by a scripted, well-behaved Atlas endpoint that logs requests) in a fresh sandbox (own cwd, HOME, TMPDIR); reference model = rule table of DESIGN.md C18 (must-reject / open / must-accept); must-reject => non-zero exit, non-empty stderr, sandbox snapshot (path, type, mode, size, SHA-256) unchanged, empty request log; must-accept => exit 0 and redacted output present; a rejection of an open combination must be side-effect free as well. states = combinations, transitions = runs, every one compared with the model",
+		Rule:        "all 8192 presence/absence combinations of {file argument, piped stdin, --outputFile, --encrypt, --redactFieldsRegexp, --redactFieldNames, --atlasProjectId, --atlasClusterName, --atlasPublicKey, --atlasPrivateKey, --atlasLogStartDate, --atlasLogEndDate, key pair in the environment}, each with and (when -o is given) without a pre-existing output file holding sentinel bytes, run through the real main() with cobra/pflag wiring (harness binary in child-cli mode: only http.DefaultTransport is replaced by a scripted, well-behaved Atlas endpoint that logs requests) in a fresh sandbox (own cwd, HOME, TMPDIR); reference model = rule table of DESIGN.md C18 (must-reject / open / must-accept); must-reject => non-zero exit, non-empty stderr, sandbox snapshot (path, type, mode, size, SHA-256) unchanged, empty request log; must-accept => exit 0 and redacted output present; a rejection of an open combination must be side-effect free as well. states = combinations, transitions = runs, every one compared with the model",
 		Assumptions: []string{"combinations the statement does not decide (Atlas key / date flags next to a real input; Atlas mode with --encrypt) are open: either outcome is accepted", "flag VALUES are fixed well-formed ones; only presence is enumerated"},
 		Run:         c18Run, Post: c18Post,
 	})
